@@ -32,7 +32,6 @@ let universe (lines : string list list) : coq_N list list =
       | ["r"; _; k; _] | ["r"; _; k] -> (try add k with _ -> ())
       | ["p"; k; _] | ["d"; k] -> add k
       | _ -> ()) lines;
-  keys := marker_key :: !keys;
   Stdlib.List.sort (fun a b -> match Bytes.bcmp a b with Datatypes.Lt -> -1 | Datatypes.Eq -> 0 | Datatypes.Gt -> 1) !keys
 
 let table_lines pr =
